@@ -489,7 +489,10 @@ class SSETransport(Transport):
                             }
                             await self._route_incoming_message(error_response)
                         except asyncio.CancelledError:
+                            # Only shutdown cancels a pending request: let the
+                            # cancellation end the sender task
                             logger.debug(f"Request {message_id} was cancelled")
+                            raise
                     else:
                         # Unexpected status
                         logger.warning(
